@@ -5,8 +5,10 @@ set -e
 T=$(mktemp -d /tmp/jedi_baseline.XXXXXX)
 cd /repo && git ls-files -z | xargs -0 cp --parents -P -t "$T"
 cd "$T/tests" && make -j16 > "$T/make.log" 2>&1 && ./test > "$T/test.log" 2>&1
+./test wkdibe > "$T/test_wk.log" 2>&1 || true
 P=$(grep -c PASS "$T/test.log" || true); F=$(grep -c -i "fail" "$T/test.log" || true)
-echo "baseline: PASS=$P FAIL=$F"
+PW=$(grep -c PASS "$T/test_wk.log" || true); FW=$(grep -c -i "fail" "$T/test_wk.log" || true)
+echo "baseline: PASS=$P FAIL=$F   (wkdibe suite: PASS=$PW FAIL=$FW)"
 [ -n "$1" ] && cp "$T/test.log" "$1"
 rm -rf "$T"
 [ "$F" = "0" ] && [ "$P" -ge 33 ]
